@@ -97,6 +97,7 @@ extern int  ANIanncmp(void *i, void *j, int value);
 
 /* private initialization routine */
 static int ANIstart(void);
+static int ANIcreate_ann_tree(int32 an_id, ann_type type);
 /* private destroy routine */
 static int ANIdestroy(void);
 
@@ -308,13 +309,13 @@ ANIaddentry(int32    an_id, /* IN: annotation interface id */
     if (BADFREC(file_rec))
         HGOTO_ERROR(DFE_ARGS, FAIL);
 
-    /* Check for empty annotation tree of 'type'? */
+    /* No annotation tree of 'type' yet?  Build it from the annotations of that
+       type already in the file: starting from an empty tree would hide them
+       from ANfileinfo/ANselect/ANnumann/ANannlist for the rest of the session */
     if (file_rec->an_num[type] == -1) {
-        if ((file_rec->an_tree[type] = (TBBT_TREE *)tbbtdmake(ANIanncmp, sizeof(int32), 0)) == NULL) {
+        if (ANIcreate_ann_tree(an_id, type) == FAIL) {
             HE_REPORT_GOTO("failed to create annotation tree", FAIL);
         }
-
-        file_rec->an_num[type] = 0;
     }
 
     /* Which type of annotation file/data label or desc? */
